@@ -12,6 +12,14 @@ def jobs(tier):
             J.append(Job('mini-gateway %s body=%d' % (pn, b), 'A', 'harness/c/mg_step.c', 'harness_mg_step', srcs=['lang/c/minimessage/MiniMessageGateway.c'],
                          cdefs={'BODY': b, 'PHASE': ph}, unwind=2 * frame + 2, unwindset={'MGDoInput.0': 4, 'MGDoOutput.0': 4}, mode='mem', object_bits=12,
                          family='mg/' + pn, timeout=(280 if tier == 'quick' else 1500)))
+    ubodies = [14, 27] if tier == 'quick' else [12, 13, 14, 20, 27, 30, 40]
+    for b in ubodies:
+        frame = 8 + b
+        for ph, pn in ((0, 'recv-header'), (1, 'recv-body'), (2, 'send')):
+            if ph == 2 and b < 27: continue          # the sender harness queues messages with one int8 field: 26 bytes + items
+            J.append(Job('micro-gateway %s body=%d' % (pn, b), 'A', 'harness/c/ug_step.c', 'harness_ug_step', srcs=['lang/c/micromessage/MicroMessageGateway.c', 'lang/c/micromessage/MicroMessage.c'],
+                         cdefs={'BODY': b, 'PHASE': ph}, unwind=2 * frame + 10, unwindset={'UGDoInput.0': 4, 'UGDoOutput.0': 4, 'GetFieldByNameAux.0': 3}, mode='mem', object_bits=12,
+                         family='ug/' + pn, timeout=(280 if tier == 'quick' else 1500)))
     return J
 
 
@@ -19,7 +27,7 @@ META = {
     'rule': 'one CBMC job per (gateway, direction/phase, frame body length); inside a job the cursor position inside the frame, every body byte, maxBytes and the count returned by every '
             'transport call are solver variables; the job proves the inductive step Recv(p) -> Recv(p\') / Send(q) -> Send(q\') incl. exact delivery at the frame boundary. '
             'Non-trivial iff the witness is reachable.',
-    'bounds': 'frames with body length in the listed set (<= 6 quick, <= 24 thorough), two frames back to back, one I/O call per job with any number of transport calls inside it',
+    'bounds': 'mini gateway: frames with body length <= 6 (quick) / <= 24 (thorough); micro gateway: body 14/27 (quick) / 12..40 (thorough), two frames back to back, one I/O call per job with any number of transport calls inside it',
     'outside': 'zlib encodings, templating gateway, WebSocket, plain-text/raw gateways\' delivery semantics, frames longer than the bound; the composition of steps into whole '
                'streams is the induction argument of DESIGN.md 5.3, not machine-checked',
     'assumptions': ['the Message codec behind the gateway is cut to a model that checks it is handed exactly the frame body', 'malloc never fails',
